@@ -105,7 +105,7 @@ X_MALFORMS = ["X_shifted", "X_shorter", "X_longer", "X_unsorted", "X_ndarray"]
 FH_MALFORMS = ["fh_dup", "fh_dup_array", "fh_dup_index", "fh_empty", "fh_empty_index",
                "fh_empty_object",
                "fh_frac_list", "fh_frac_array", "fh_frac_scalar", "fh_str", "fh_dict", "fh_nested"]
-INT_MALFORMS = ["zero", "negative", "fractional", "string", "bool", "list"]
+INT_MALFORMS = ["zero", "negative", "fractional", "string", "bool", "list", "np_fractional", "np_negative"]
 
 
 def malform_y(kind, y, rng):
@@ -183,7 +183,8 @@ def malform_fh(kind, steps):
 
 def malform_int(kind, valid):
     return {"zero": 0, "negative": -valid, "fractional": valid + 0.5, "string": str(valid),
-            "bool": True, "list": [valid]}[kind]
+            "bool": True, "list": [valid], "np_fractional": np.float64(valid + 0.5),
+            "np_negative": np.int64(-valid)}[kind]
 
 
 # ------------------------------------------------------------------ cells
@@ -428,9 +429,15 @@ def _register_fh_cells():
             other = list(ctx.steps)[:-1]          # a proper subset of the fitted horizon
         else:
             other = [ctx.steps[-1]]               # a single step out of the fitted horizon
+        as_abs = ctx.rng.random() < 0.35
+        if as_abs:
+            # the differing horizon written in the other representation (absolute time points)
+            from sktime.forecasting.base import ForecastingHorizon
+            cut = int(ctx.y_train.index[-1])
+            other = ForecastingHorizon(pd.Index([cut + s for s in other], dtype=np.int64), is_relative=False)
         return dict(control=lambda: C.build(spec).fit(ctx.y_train, fh=list(ctx.steps)).predict(list(ctx.steps)),
                     faulty=lambda: f.predict(other), after=lambda: f.predict(),
-                    sig={"forecaster": _k(spec)})
+                    sig={"forecaster": _k(spec), "absolute": as_abs})
     cell("predict/fh_different_from_fit", "missing_or_different_fh", "entry_forecaster")(different)
 
 
@@ -682,8 +689,10 @@ def _register_strategy_cells():
 
     def aggfunc(ctx):
         from sktime.forecasting.compose import EnsembleForecaster
-        mk = lambda a: EnsembleForecaster([("a", C.build(ctx.forecaster(["naive"]))),  # noqa
-                                           ("b", C.build(ctx.forecaster(["trend"])))], aggfunc=a)
+        single = ctx.rng.random() < 0.3    # (nothing to aggregate, but still an unknown name)
+        mk = lambda a: EnsembleForecaster(  # noqa
+            [("a", C.build(ctx.forecaster(["naive"])))] + ([] if single else [
+                ("b", C.build(ctx.forecaster(["trend"])))]), aggfunc=a)
         return dict(control=lambda: mk("median").fit(ctx.y_train).predict(list(ctx.steps)),
                     faulty=lambda: mk(ctx.rng.choice(["sum", "avg", None])).fit(ctx.y_train).predict(list(ctx.steps)),
                     sig={})
